@@ -16,7 +16,7 @@ func init() {
 		Level: "exploration",
 		Rule: "one run = one generated node graph (depth <= 8, every target kind from MOVE, INCMP and CATCH, single-candidate routing after each HALT, multi-page nodes) + an input history mixing descents, ascents, rewinds, repeats, lateral and failing moves, restarts at request boundaries, all backends in rotation; " +
 			"after every request the position (node path, page index) read from the live/persisted state must equal the documented move table applied to the moves executed; non-trivial = at least 2 different kinds of move executed (descent, ascent, rewind, lateral, same-path, failing), one of them not a descent; distinct = distinct sequences of (move kind, path, index)",
-		Runs:       map[string]int{"quick": 60000, "thorough": 1500000},
+		Runs:       map[string]int{"quick": 60000, "thorough": 3000000},
 		MaxSeconds: map[string]int{"quick": 40, "thorough": 900},
 		Run:        runC04,
 		Assumptions: []string{
